@@ -1613,7 +1613,6 @@ class WBEMListener:
                 self.logger.info(
                     "%s indications discarded from indication queue",
                     clr_count)
-            self._ind_queue = None
 
         # Tolerate that callback thread has already stopped, just in case.
         if self._callback_thread:
@@ -1622,6 +1621,11 @@ class WBEMListener:
             self._callback_thread.join()
             self.logger.info("Stopped callback thread")
             self._callback_thread = None
+
+        # The queue reference is cleared only after the callback thread has
+        # ended, because an empty queue does not mean that the callback thread
+        # is done with the last indication it got from the queue.
+        self._ind_queue = None
 
     def _stop_listener_threads(self):
         """
@@ -1660,11 +1664,15 @@ class WBEMListener:
         """
         self.logger.info("Entering callback processing loop")
 
+        # Use the queue this thread was started for, independent of stop()
+        # clearing the queue reference of the listener.
+        ind_queue = self._ind_queue
+
         while True:
             try:
 
                 # This raises queue.Empty when the timeout expires
-                queue_item = self._ind_queue.get(
+                queue_item = ind_queue.get(
                     block=True,
                     timeout=self.queue_get_timeout)
                 indication, host, msgid = queue_item
@@ -1675,7 +1683,7 @@ class WBEMListener:
                 # Really for delivering to multiple workers rather than
                 # this simple case of a single worker. However this
                 # keeps the queue clean.
-                self._ind_queue.task_done()
+                ind_queue.task_done()
 
             # If queue empty and stop event set break out of loop
             except queue.Empty:
